@@ -290,16 +290,8 @@ func buildQuant(kind string, names []string, inner string) string {
 		quantCounter++
 		j := fmt.Sprintf("%s_a%d", v, quantCounter)
 		t := subst(root, v, base, j)
-		trig := triggersFor(t, j)
-		var pats []string
-		for _, p := range trig {
-			pats = append(pats, ":pattern ("+p+")")
-		}
-		if len(pats) > 0 {
-			copies = append(copies, fmt.Sprintf("(%s ((%s Int)) (! %s %s))", kind, j, t.String(), strings.Join(pats, " ")))
-		} else {
-			copies = append(copies, fmt.Sprintf("(%s ((%s Int)) %s)", kind, j, t.String()))
-		}
+		// triggers are chosen by addPatterns once the outermost quantifier is complete
+		copies = append(copies, fmt.Sprintf("(%s ((%s Int)) %s)", kind, j, t.String()))
 	}
 	if bare || len(bases) == 0 {
 		mk("")
@@ -311,4 +303,41 @@ func buildQuant(kind string, names []string, inner string) string {
 		return copies[0]
 	}
 	return "(and " + strings.Join(copies, " ") + ")"
+}
+
+// addPatterns annotates every single-variable quantifier of the term that has no
+// pattern yet with triggers chosen from its final body.
+func addPatterns(term string) string {
+	root := parseSx(term)
+	if root == nil {
+		return term
+	}
+	var walk func(n *sx) *sx
+	walk = func(n *sx) *sx {
+		if n.kids == nil {
+			return n
+		}
+		out := &sx{kids: make([]*sx, len(n.kids))}
+		for i, k := range n.kids {
+			out.kids[i] = walk(k)
+		}
+		h := out.head()
+		if (h == "forall" || h == "exists") && len(out.kids) == 3 && len(out.kids[1].kids) == 1 {
+			body := out.kids[2]
+			if body.head() == "!" {
+				return out
+			}
+			v := out.kids[1].kids[0].kids[0].atom
+			trig := triggersFor(body, v)
+			if len(trig) > 0 {
+				ann := &sx{kids: []*sx{{atom: "!"}, body}}
+				for _, p := range trig {
+					ann.kids = append(ann.kids, &sx{atom: ":pattern"}, &sx{kids: []*sx{parseSx(p)}})
+				}
+				out.kids[2] = ann
+			}
+		}
+		return out
+	}
+	return walk(root).String()
 }
